@@ -22,7 +22,8 @@
      [t |-> "ld",    a |-> the 10 significant bytes] *)
 EXTENDS Integers, Sequences, FiniteSets, TLC
 
-CONSTANTS Variant    \* "faithful" | "short_as_int" | "u8_signed" | "bool_truthy" | "no_stride" | "align_skip"
+CONSTANTS Variant    \* "faithful" | "short_as_int" | "u8_signed" | "bool_truthy" | "no_stride" | "align_skip" |
+                     \* "pair_past_end" | "char32_unchecked"
 
 (* ------------------------------------------------------------ platform (x86-64 SysV) *)
 SzChar == 1  SzShort == 2  SzInt == 4  SzLong == 8  SzFloat == 4  SzDouble == 8
@@ -88,6 +89,22 @@ Utf16(cs) ==
   IN [j \in 1..Cardinality(Keep) |->
         LET p == Pos(j) IN
         IF p \in Starts THEN V("chr", 65536 + (cs[p].n - 55296) * 1024 + (cs[p + 1].n - 56320), <<>>) ELSE cs[p]]
+(* the UTF-16 code units a sequence of characters encodes (a character above 0xFFFF is two units) *)
+Units(vs) ==
+  LET n == Len(vs)
+      Big(i) == vs[i].n > 65535
+      Start(i) == i + Cardinality({q \in 1..(i - 1) : Big(q)})          \* first output position of character i
+      total == n + Cardinality({q \in 1..n : Big(q)})
+      Src(j) == CHOOSE i \in 1..n : Start(i) <= j /\ j < Start(i) + (IF Big(i) THEN 2 ELSE 1)
+  IN [j \in 1..total |->
+        LET i == Src(j) IN
+        IF ~Big(i) THEN vs[i].n
+        ELSE IF j = Start(i) THEN 55296 + ((vs[i].n - 65536) \div 1024) ELSE 56320 + ((vs[i].n - 65536) % 1024)]
+(* whatever reading is taken for surrogate pairs, unpack(p, n) over 2-byte characters encodes exactly the
+   n items 0..n-1: it is a function of those items only *)
+UnitsAreItems(t, m, n, res) ==
+  (t.cls = "char" /\ t.sz = 2 /\ res.st = "ok" /\ \A k \in 1..Len(res.vals) : res.vals[k].t = "chr")
+     => Units(res.vals) = [k \in 1..n |-> Code(Read(m, 2 * (k - 1), 2))]
 (* the results the statement allows for unpack *)
 IdealResults(t, m, n) ==
   LET e == Elementwise(t, m, n) IN
@@ -154,25 +171,22 @@ FromChar16(m, n) ==
       pairs == Cardinality({i \in 0..(n - 2) : IsHi(w(i)) /\ IsLo(w(i + 1))})
       B[i \in 0..n] ==          \* output built from position i on
         IF i >= n THEN <<>>
-        ELSE IF IsHi(w(i)) /\ i < n - 1 /\ IsLo(w(i + 1))
+        ELSE IF IsHi(w(i)) /\ (i < n - 1 \/ Variant = "pair_past_end") /\ IsLo(w(i + 1))
           THEN <<V("chr", ((w(i) % 1024) * 1024 + (w(i + 1) % 1024)) + 65536, <<>>)>> \o (IF i + 2 > n THEN <<>> ELSE B[i + 2])
           ELSE <<V("chr", w(i), <<>>)>> \o B[i + 1]
   IN IF pairs = 0 THEN [k \in 1..n |-> V("chr", w(k - 1), <<>>)] ELSE B[0]
 
 OutOfRange32(m, i) == m[4 * i + 4] # 0 \/ m[4 * i + 3] > 16
-(* KNOWN DEFECT (known_findings.d/C18.json): for n >= 2 an out-of-range char32_t/wchar_t item does not
-   raise as p[i] does; unpack returns a str object holding the invalid code point. *)
-KnownChar32Defect(t, m, n) == t.cls = "char" /\ t.sz = 4 /\ n >= 2 /\ \E i \in 0..(n - 1) : OutOfRange32(m, i)
-
 ImplUnpack(t, addr, m, n) ==
   IF t.cls = "char" /\ t.sz = 1 THEN [st |-> "ok", vals |-> [k \in 1..n |-> V("byte", m[k], <<>>)]]
   ELSE IF t.cls = "char" /\ t.sz = 2 THEN [st |-> "ok", vals |-> FromChar16(m, n)]
   ELSE IF t.cls = "char" /\ t.sz = 4 THEN
-       (* _my_PyUnicode_FromChar32 = PyUnicode_FromKindAndData(PyUnicode_4BYTE_KIND, w, n).  CPython
-          (3.12 unicodeobject.c, _PyUnicode_FromUCS4): n = 1 goes through unicode_char ->
-          PyUnicode_New(1, ch), which rejects ch > 0x10FFFF; n >= 2 sizes the string with
-          ucs4lib_find_max_char, which saturates at 0x10FFFF, and copies the units unchecked. *)
-       IF n = 1 /\ OutOfRange32(m, 0) THEN [st |-> "UnicodeRange", vals |-> <<>>]
+       (* _my_PyUnicode_FromChar32: every unit is range-checked (ValueError), then
+          PyUnicode_FromKindAndData.  Variant "char32_unchecked" is the code before that check existed:
+          CPython sizes the string with a saturating max-char and copies the units unchecked for n >= 2
+          (n = 1 goes through unicode_char -> PyUnicode_New, which rejects > 0x10FFFF). *)
+       IF (\E i \in 0..(n - 1) : OutOfRange32(m, i)) /\ (Variant # "char32_unchecked" \/ n = 1)
+         THEN [st |-> "UnicodeRange", vals |-> <<>>]
        ELSE [st |-> "ok", vals |-> [k \in 1..n |-> IF OutOfRange32(m, k - 1) THEN V("chr-invalid", 0, Read(m, 4 * (k - 1), 4))
                                                     ELSE V("chr", Code(Read(m, 4 * (k - 1), 4)), <<>>)]]
   ELSE
